@@ -368,7 +368,12 @@ _RULE_EXTRA["C02"] = ("; a sixth configuration with 1..5 workers in turn by the 
 _RULE_EXTRA["C19"] += ("; on 4 in 12 case indices the same table also loaded from a CSV file by SortFile with the key given by column names (tag sortfile; the re-use "
                        "cases of index 9 too); on 4 in 12 also loaded while, for a stretch of rows, no spill file can be created and the caller carries on after the "
                        "AddRow errors (op sort-fault): every row whose AddRow returned nil comes out once per key in key order in both outputs, and the fault model "
-                       "(Model/SorterFault.lean) agrees on which calls fail, on the spills and on the rows")
+                       "(Model/SorterFault.lean) agrees on which calls fail, on the spills and on the rows"
+                       "; on 3 in 12 also one sorter walking through 2..4 small tables of ONE key kind (no key, or the same key columns) and DIFFERENT widths "
+                       "over a 3..5-cell alphabet with the empty cell (tag reuse-one-key-kind; rows of the wider table agree on every column the narrower one has), "
+                       "earlier uses mostly read to the end or cancelled, nothing spilled in half of them, 1 in 4 through SortFile: same clauses and model as sort-reuse "
+                       "(tags reset-after-unspilled-read:keyless|keyed:next-wider|narrower count the histories where the sorter had worked out the key of a table "
+                       "that fitted in memory before the next, differently shaped one)")
 for _k, _v in _RULE_EXTRA.items():
     PROPS[_k]["rule"] = PROPS[_k]["rule"] + _v
 
@@ -390,7 +395,7 @@ _LEVEL_EXTRA = {
     "C08": " Across wants: C08_all_wants (one whole call of enqueueWants: closed for every non-pending want, acceptable at every position, sound). Across the round's bookkeeping: C08_accepts_reachable_wants and C08_process_sound (Process accepts exactly the wants reachable from refs whatever the timestamps; every ack is a have that is an ancestor of a ref).",
     "C11": " Walks from any list of start points, repeats included, pop every ancestor exactly once (C11_walk_multi_each_once).",
     "C14": " Discard interrupted at any store operation touches no branch, reports success only when everything is gone, and completes on re-run (C14_discard_fault).",
-    "C19": " A sorter re-used after Reset() starts from the empty state whatever the previous use left in it (C19_reuse_history_independent), hence emits one row per distinct key of the table loaded after the Reset (C19_reuse_kept_spec).",
+    "C19": " A sorter re-used after Reset() starts from the empty state whatever the previous use left in it (C19_reuse_history_independent), hence emits one row per distinct key of the table loaded after the Reset (C19_reuse_kept_spec); for key-less tables that is exactly the set of the table's own distinct rows, each once (C19_reuse_keyless_keeps_every_row), the key being every column of THAT table's width (C19_keyless_key_is_all_columns) and of no narrower one (C19_narrower_index_list_collapses_rows).",
     "C16": " Error reporting never blocks when the channel has one slot per sender (C16_error_report_never_blocks; the capacities of the ingest and merge error channels are extracted facts). Finishing a progress bar returns in every bar state (C16_pbar_done_returns, tied by the fact pbarDoneForcesCompletion).",
 }
 for _k, _v in _LEVEL_EXTRA.items():
